@@ -386,6 +386,8 @@ def _real_const(v):
 
 
 def is_numlike(v):
+    if hasattr(v, "_buf"):  # symbolic arrays handle arithmetic themselves (reflected operators)
+        return False
     return isinstance(v, (int, float, fractions.Fraction, SymInt, SymReal)) or (
         hasattr(v, "item") and getattr(v, "shape", None) == () and not isinstance(v, SymBool)
     )
@@ -424,6 +426,8 @@ def to_int(v):
 
 
 def is_intlike(v):
+    if hasattr(v, "_buf"):
+        return False
     return isinstance(v, (int, SymInt)) and not isinstance(v, bool) or (
         hasattr(v, "item") and getattr(v, "shape", None) == () and isinstance(v.item(), int)
     )
@@ -845,19 +849,42 @@ def _opaque_sum(bounds, body):
         if len(bounds) > 4:
             break
     s, pb, rb, rbounds = best
-    # abstract the free constants (excluding the placeholders) into parameters
+    # abstract the maximal bound-variable-free subterms into parameters (congruence for the solver)
+    placeholders = {f"__B{j}" for j in range(len(pb))}
+    params = []  # list of z3 terms
+    pindex = {}
+
+    memo = {}
+
+    def has_bound(e):
+        k = e.get_id()
+        if k in memo:
+            return memo[k]
+        if z3.is_const(e):
+            r = e.decl().kind() == z3.Z3_OP_UNINTERPRETED and e.decl().name() in placeholders
+        else:
+            r = any(has_bound(ch) for ch in e.children())
+        memo[k] = r
+        return r
+
+    def abstract(e):
+        if z3.is_int_value(e) or z3.is_rational_value(e) or z3.is_true(e) or z3.is_false(e):
+            return e
+        if not has_bound(e) and (z3.is_int(e) or z3.is_real(e)):
+            k = e.get_id()
+            if k not in pindex:
+                pindex[k] = len(params)
+                params.append(e)
+            return z3.Const(f"__P{pindex[k]}", e.sort())
+        if z3.is_app(e) and e.num_args() > 0:
+            ch = [abstract(c) for c in e.children()]
+            return e.decl()(*ch)
+        return e
+
     allexpr = [rb] + [x for p in rbounds for x in p]
-    frees = []
-    seen = set()
-    for ex in allexpr:
-        for c in _free_consts(ex):
-            if c.decl().name().startswith("__B"):
-                continue
-            if c.get_id() not in seen:
-                seen.add(c.get_id())
-                frees.append(c)
-    psubs = [(c, z3.Const(f"__P{j}", c.sort())) for j, c in enumerate(frees)]
-    canon = "|".join(z3.substitute(ex, *psubs).sexpr() if psubs else ex.sexpr() for ex in allexpr)
+    abstracted = [abstract(ex) for ex in allexpr]
+    frees = params
+    canon = "|".join(ex.sexpr() for ex in abstracted)
     h = hashlib.sha1(canon.encode()).hexdigest()[:12]
     fname = f"SUM_{h}"
     if frees:
